@@ -1170,6 +1170,30 @@ std::string tst(std::basic_string<Ch> const &text_, std::string const &steps)
       fcppt::optional::object<bool> const r{fcppt::io::extract<bool>(is)};
       o = "xb=" + (r.has_value() ? "some " + b01(r.get_unsafe()) : std::string{"none"});
     }
+    else if (step == "n3" || step == "n5")
+    {
+      // fcppt::enum_::input in the middle of other traffic; the variable is printed whether or not it was assigned
+      auto const run = [&is]<typename E>(E init) {
+        E e{init};
+        fcppt::enum_::input(is, e);
+        return std::to_string(static_cast<unsigned>(e));
+      };
+      o = step + "=" + (step == "n3" ? run(c15::e3::b) : run(c15::e5::lead));
+    }
+    else if (step == "v1" || step == "v2")
+    {
+      auto const run = [&is]<unsigned N>(std::integral_constant<unsigned, N>) {
+        fcppt::math::vector::static_<int, N> v{fcppt::no_init{}};
+        for (unsigned i = 0; i < N; ++i)
+          v.get_unsafe(i) = 77;
+        is >> v;
+        std::string r;
+        for (unsigned i = 0; i < N; ++i)
+          r += (i ? "," : "") + std::to_string(v.get_unsafe(i));
+        return r;
+      };
+      o = step + "=" + (step == "v1" ? run(std::integral_constant<unsigned, 1>{}) : run(std::integral_constant<unsigned, 2>{}));
+    }
     else if (step.size() > 1 && step[0] == 'x')
       o = with_num(step.substr(1), [&](auto const z) {
         using D = std::remove_cv_t<decltype(z)>;
@@ -1192,9 +1216,32 @@ std::string tst(std::basic_string<Ch> const &text_, std::string const &steps)
   return out + "|rest=" + std::to_string(is.rdbuf()->in_avail());
 }
 
+// ---- float / double through decimal text: NOT modelled in Lean (printf %g / strtod are library code); judged by the
+// plugin's own exact-rational oracle in extra_checks
+template <typename F, typename I>
+std::string rtf(std::string const &op, std::string const &arg)
+{
+  auto const show = [](fcppt::optional::object<F> const &r) {
+    return r.has_value() ? std::to_string(static_cast<unsigned long long>(std::bit_cast<I>(r.get_unsafe()))) : std::string{"none"};
+  };
+  if (op == "eff")
+    return show(fcppt::extract_from_string<F>(parse_hex(arg)));
+  F const v{std::bit_cast<F>(parse_int<I>(arg))};
+  std::string const s{fcppt::output_to_std_string(v)};
+  if (narrow_codes(fcppt::output_to_std_wstring(v)) != s)
+    throw std::logic_error{"float output: wide and narrow differ"};
+  return "s=" + hex_of(s) + " r=" + show(fcppt::extract_from_string<F>(s));
+}
+
 std::string text_ext(std::vector<std::string> const &t)
 {
   std::string const &op = t[0];
+  if ((op == "rtf" || op == "eff") && t.size() == 3)
+  {
+    if (t[1] == "f32") return rtf<float, std::uint32_t>(op, t[2]);
+    if (t[1] == "f64") return rtf<double, std::uint64_t>(op, t[2]);
+    throw bad_op{};
+  }
   auto const wide = [&t]() {
     if (t.at(1) == "N") return false;
     if (t.at(1) == "W") return true;
@@ -1392,9 +1439,11 @@ struct toy_facet : std::codecvt<wchar_t, char, std::mbstate_t>
   result go(std::mbstate_t &st, In const *from, In const *const from_end, In const *&from_next, Out *to, Out *const to_end, Out *&to_next) const
   {
     std::size_t cnt = 0;
+    Out *const to_begin{to};
+    // null_to: a call that produced no output leaves to_next as it was handed in (the loop passes a null pointer)
     auto const done = [&](result const r) {
       from_next = from;
-      if (!(p.null_to && (r == error || r == noconv)))
+      if (!(p.null_to && to == to_begin))
         to_next = to;
       return r;
     };
@@ -1592,7 +1641,7 @@ std::string dispatch(std::vector<std::string> const &t)
     return vec_by_size(t);
   if (op == "mat")
     return mat(t);
-  if (op == "efb" || op == "rtb" || op == "efstr" || op == "rtstr" || op == "otsl" || op == "efsx" || op == "tst" || op == "strconv" || op == "literals")
+  if (op == "efb" || op == "rtb" || op == "efstr" || op == "rtstr" || op == "otsl" || op == "efsx" || op == "tst" || op == "strconv" || op == "literals" || op == "rtf" || op == "eff")
     return text_ext(t);
   if (op == "bst" && t.size() == 2)
     return bst(t[1]);
